@@ -30,7 +30,8 @@ class State:
     def fork(self):
         s = State.__new__(State)
         s.env = dict(self.env)
-        s.heap = {r: (dict(o) if isinstance(o, dict) else list(o)) for r, o in self.heap.items()}
+        s.heap = {r: ({k: (list(v) if isinstance(v, list) else v) for k, v in o.items()} if isinstance(o, dict) else list(o))
+                  for r, o in self.heap.items()}
         s.pc = list(self.pc)
         s.ghost = {}
         for k, v in self.ghost.items():
